@@ -185,7 +185,7 @@ def blinds_strategy(draw, n, sb_amt, bb_amt):
 def custom_game(draw, families=None):
     fam = draw(st.sampled_from(families or ['flop', 'stud', 'draw', 'kuhn',
                                             'flop', 'stud', 'mixed',
-                                            'drawboard']))
+                                            'drawboard', 'repeat']))
     structure = draw(st.sampled_from(['FIXED_LIMIT', 'POT_LIMIT',
                                       'NO_LIMIT']))
     cap = draw(st.sampled_from([None, None, 1, 2, 3, 4]))
@@ -208,9 +208,15 @@ def custom_game(draw, families=None):
         shape = draw(st.sampled_from([(3, 1, 1), (5,), (1, 1, 1), (3, 2),
                                       (2, 2, 1)]))
         streets = [[0, [0] * hole, 0, 0, 'POSITION', mb, cap]]
+        extra_hole = 0
+        if hole <= 4 and draw(st.integers(0, 4)) == 0:
+            # a second round of hole cards before any community card
+            streets.append([0, [0], 0, 0, 'POSITION', mb, cap])
+            extra_hole = 1
         for j, b in enumerate(shape):
             amt = mb * (2 if j >= len(shape) - 2 and len(shape) > 2 else 1)
             streets.append([int(burn), [], b, 0, 'POSITION', amt, cap])
+        hole += extra_hole
         total = hole + sum(shape)
         opts = []
         if total >= 5:
@@ -238,6 +244,19 @@ def custom_game(draw, families=None):
             deck=deck, hand_types=hts, structure=structure, streets=streets,
             family=fam, hole=hole, board=sum(shape),
             burns=int(burn) * len(shape), stud=False, max_n=9,
+        )
+    if fam == 'repeat':
+        # the same street definition on every round (equal by value, a
+        # distinct object each time): only the first round is a first round
+        k = draw(st.integers(2, 4))
+        low = draw(st.booleans())
+        one = [0, [0, 1], 0, 0, 'HIGH_CARD' if low else 'LOW_CARD', mb, cap]
+        streets = [list(one) for _ in range(k)]
+        return dict(
+            deck='STANDARD', hand_types=['StandardBadugiHand'] if 2 * k < 5
+            else (['StandardLowHand'] if low else ['StandardHighHand']),
+            structure=structure, streets=streets, family=fam, hole=2 * k,
+            board=0, burns=0, stud=True, bring=True, max_n=6,
         )
     if fam == 'drawboard':
         # a draw round followed by community cards (none of the predefined
@@ -451,6 +470,9 @@ def configs(
                  else bool(unknown) and draw(st.booleans())),
         rig=draw(st.sampled_from(rigs)),
     )
+    if draw(st.integers(0, 9)) == 0:
+        # the mode given as the equal plain string (Mode is a StrEnum)
+        cfg['mode_as_str'] = True
     if mode == 'C' and nboards >= 1 and (
             game in BOARD_GAMES or (cdesc and cdesc['board'] > 0)):
         cfg['force_runouts'] = draw(st.sampled_from([None, None, 2, 2, 3]))
